@@ -38,6 +38,15 @@ Theorem C11_other_reply_discards : forall cfg c p f s sn,
                cp = clear_sm p /\ p_sm_id cp = [].
 Proof. exact other_reply_discards. Qed.
 
+(* a stream on which the server does not offer stream management at all: nothing can be
+   resumed there, a new session is bound, and the state held from the earlier session is
+   discarded (stanzas of the new, unmanaged session are never counted into it, and the old
+   id is never presented again: C11_stale_never_again) *)
+Theorem C11_not_offered_discards : forall cfg c p f s sn,
+  f_sm f = false ->
+  step_resume cfg c p f s sn = step_bind cfg c (clear_sm p) f s sn.
+Proof. intros cfg c p f s sn H. unfold step_resume. rewrite H. reflexivity. Qed.
+
 (* once discarded the id is gone: with an empty stored id no connection, whatever the
    server says, contains a <resume/> (so a stale id is never presented again; a new
    id can only come from a new <enabled/>: enable_sm_id) *)
@@ -72,5 +81,6 @@ Print Assumptions C11_resume_content.
 Print Assumptions C11_resumed_continues.
 Print Assumptions C11_refused_binds_fresh.
 Print Assumptions C11_other_reply_discards.
+Print Assumptions C11_not_offered_discards.
 Print Assumptions C11_stale_never_again.
 Print Assumptions C11_new_id_only_from_enabled.
